@@ -2798,12 +2798,13 @@ func (pc *persistConn) readLoop() {
 			resp.Uncompressed = true
 		} else if pc.t.AutoDecompression {
 			contentEncoding := resp.Header.Get("Content-Encoding")
-			if contentEncoding != "" {
+			// only touch the response if the content coding is supported
+			if cr := compress.NewCompressReader(resp.Body, contentEncoding); cr != nil {
 				resp.Header.Del("Content-Encoding")
 				resp.Header.Del("Content-Length")
 				resp.ContentLength = -1
 				resp.Uncompressed = true
-				resp.Body = compress.NewCompressReader(resp.Body, contentEncoding)
+				resp.Body = cr
 			}
 		}
 
